@@ -44,12 +44,19 @@ META = {
         "simulations of all raw-mode evaluations since the last "
         "initialize(), including the blocks of the training cases that "
         "preceded a failing one",
-        "get_differentials() on an empty collection and set_model / "
-        "get_differentials without supports_model_mode raise ValueError: "
-        "counted as clean rejection, the object must be unchanged afterwards",
-        "cost limit: quadratic and cubic blueprints get parameter vectors "
-        "from [-4,4]^n on Lorenz (wild polynomial feedback makes single "
-        "evaluations take many seconds); 4 training states"],
+        "get_differentials() while nothing is collected may raise "
+        "ValueError or return zero rows; set_model / get_differentials "
+        "without supports_model_mode raise ValueError: counted as clean "
+        "rejection, the mirror model is unchanged",
+        "cost limit (deterministic work budget, not a time limit): high-gain "
+        "and discontinuous controllers make RK45 chatter for minutes, so an "
+        "evaluate(x) whose reference simulation invokes the controller more "
+        "than 30 000 times is skipped before the object under test sees it "
+        "and counted (label evaluate_skipped_work_limit); parameter vectors "
+        "are drawn mostly from [-4,4]^n, near zero and small ranges and "
+        "sometimes from the full box [-32,32]^n; 4 training states",
+        "the controller blueprint is handed to the Instance through the "
+        "public Controller constructor, wrapped by a call counter"],
     "shards": [4, 16],
     "technique": "property-based testing of histories: Hypothesis "
                  "rule-based state machine against a Python mirror model "
@@ -62,6 +69,9 @@ META = {
     "level_note": "per-case simulation and figure of merit are taken from "
                   "the package (checked by C10); small training budgets",
 }
+
+
+WORK_LIMIT = 30_000  # controller invocations per evaluate(x)
 
 
 def _combine(cls: str, js: list[float]) -> float:
@@ -78,6 +88,9 @@ class ObjectiveHistory:
         self.ctx = ctx
         self.init = init
         self.inst = gen_dc.build_instance_dc(init)
+        self.counter = self.inst.work_counter
+        self.dead = False
+        self.skipped = 0
         self.system = self.inst.system
         self.training = self.system.training_starting_states
         self.training_bytes = self.training.tobytes()
@@ -148,16 +161,31 @@ class ObjectiveHistory:
         with np.errstate(all="ignore"):
             return g.evaluate(x.copy())
 
+    def _budget(self, limit: Any) -> None:
+        self.counter.n = 0
+        self.counter.limit = limit
+
     def _check_training(self, what: str) -> None:
         require(self.training.tobytes() == self.training_bytes,
                 f"{what} modified the training starting states")
 
     # -- operations ----------------------------------------------------------
     def apply(self, op: dict) -> None:
+        if self.dead:
+            return
         self.ops += 1
         kind = op["op"]
         if kind == "evaluate":
-            self._evaluate(op)
+            try:
+                self._evaluate(op)
+            except gen_dc.WorkLimit:
+                # the object under test did much more work than the
+                # reference simulation of the same x: its state is undefined
+                self.dead = True
+                self.ctx.rec.inconc("work_limit_inside_object")
+                return
+            finally:
+                self._budget(None)
         elif kind == "initialize":
             self._sut("initialize()", self.f.initialize)
             self.blocks = []
@@ -189,20 +217,32 @@ class ObjectiveHistory:
     def _evaluate(self, op: dict) -> None:
         x = np.array(op["x"], dtype=float)
         xb = x.tobytes()
+        equations = self.system.equations if self.mode == "raw" \
+            else self.model
+        # 1. reference simulation under the work budget: an x that needs more
+        #    is outside the generated domain (skipped, counted, the object
+        #    under test never sees it)
+        self._budget(WORK_LIMIT)
+        try:
+            want, js, blocks = self._reference(x, equations)
+        except gen_dc.WorkLimit:
+            self.skipped += 1
+            self.ctx.rec.label("evaluate_skipped_work_limit")
+            return
+        # 2. the object under test, then a fresh object
+        self._budget(4 * WORK_LIMIT)
         got = self._sut("evaluate(x)", self.f.evaluate, x)
         require(x.tobytes() == xb, "evaluate modified the parameter vector")
         require(isinstance(got, float), f"evaluate returned {type(got)}")
         require(got == 1e200 or 0.0 <= got <= 1e100,
                 f"evaluate returned {got!r}: neither in [0, 1e100] nor the "
                 "failure value 1e200")
+        self._budget(4 * WORK_LIMIT)
         fresh = self._fresh_value(x)
         require(got == fresh, lambda: (
             f"{self.mode}-mode evaluate returned {got!r} but a freshly "
             f"constructed objective returns {fresh!r} for the same x (step "
             f"{self.ops}, {self.n_eval} evaluations before)"))
-        equations = self.system.equations if self.mode == "raw" \
-            else self.model
-        want, js, blocks = self._reference(x, equations)
         if want == 1e200:
             require(got == 1e200, lambda: f"per-case figures of merit {js} "
                     f"call for the failure value 1e200, got {got!r}")
@@ -221,29 +261,40 @@ class ObjectiveHistory:
         self.n_eval[self.mode] += 1
         if got == 1e200:
             self.n_fail += 1
+            self.ctx.rec.label(f"evaluations_1e200_{self.mode}"
+                               + ("_faulty_system" if self.init.get("fault")
+                                  else ""))
+            if self.mode == "raw" and self.smm and blocks:
+                self.ctx.rec.label("evaluations_1e200_with_partial_blocks")
         key = tuple(op["x"])
         if key not in self.used:
             self.used.append(key)
 
     def _get_differentials(self) -> None:
+        rows = sum(len(b[0]) for b in self.blocks)
         try:
             res = self._sut("get_differentials()", self.f.get_differentials,
                             allowed=(ValueError,))
         except ValueError:
-            require(not self.smm or not self.blocks, lambda: (
+            # clean rejection: no model mode, or nothing to hand out
+            require(not self.smm or rows == 0, lambda: (
                 "get_differentials raised ValueError although "
-                f"{len(self.blocks)} blocks were collected"))
+                f"{len(self.blocks)} blocks ({rows} rows) were collected"))
             self.rejections += 1
             return
         require(self.smm, "get_differentials returned data without "
                 "supports_model_mode")
-        require(bool(self.blocks), "get_differentials returned data although "
-                "nothing was collected since the last initialize()")
         require(isinstance(res, tuple) and len(res) == 2,
                 "get_differentials did not return a pair")
+        got_sc, got_df = np.asarray(res[0]), np.asarray(res[1])
+        if rows == 0:
+            require(len(got_sc) == 0 and len(got_df) == 0, lambda: (
+                f"get_differentials returned {len(got_sc)} rows although no "
+                "raw-mode evaluation completed a training case since the "
+                "last initialize()"))
+            return
         sc = np.concatenate([b[0] for b in self.blocks])
         df = np.concatenate([b[1] for b in self.blocks])
-        got_sc, got_df = np.asarray(res[0]), np.asarray(res[1])
         require(got_sc.shape == sc.shape and got_df.shape == df.shape,
                 lambda: f"collected differentials have shapes {got_sc.shape} "
                 f"/ {got_df.shape}; the raw-mode evaluations since the last "
@@ -254,6 +305,8 @@ class ObjectiveHistory:
                 "blocks of the raw-mode evaluations")
 
     def finish(self) -> None:
+        if self.dead:
+            return
         if self.smm:
             self._get_differentials()
         distinct = len(self.used)
@@ -272,6 +325,8 @@ class ObjectiveHistory:
             labels.append("has_1e200_evaluation")
         if self.rejections:
             labels.append("has_clean_rejection")
+        if self.skipped:
+            labels.append("has_skipped_expensive_x")
         self.ctx.rec.label("evaluations_raw", self.n_eval["raw"])
         self.ctx.rec.label("evaluations_model", self.n_eval["model"])
         self.ctx.rec.label("evaluations_1e200", self.n_fail)
